@@ -96,6 +96,9 @@ func (p *pstate) fork() *pstate {
 		n.ghost[k] = v
 	}
 	n.defers = append([]deferred{}, p.defers...)
+	// the forking path continues in a fresh child environment too, so that its later writes
+	// (loop-header phis at a back edge) are not visible to the sibling
+	p.vals = &valEnv{m: map[ssa.Value]Val{}, parent: p.vals}
 	return n
 }
 
@@ -317,7 +320,7 @@ func (x *exec) evalAt(st *pstate, sc *scope) *Eval {
 	if pkg == nil && x.fn.Pkg != nil {
 		pkg = x.fn.Pkg.Pkg
 	}
-	return &Eval{P: x.p, Env: x.env, Pkg: pkg, Heap: st.heap, Old: x.old, Scope: sc, TParams: x.tparams}
+	return &Eval{P: x.p, Env: x.env, Pkg: pkg, Heap: st.heap, Old: x.old, Scope: sc, TParams: x.tparams, Facts: func(t *smt.Term) { st.assume(t, "type invariant of a value read by a specification") }}
 }
 
 // ---- loops
@@ -386,8 +389,9 @@ func (w *writeSet) root(x *exec, t types.Type) {
 	if at, ok := t.Underlying().(*types.Array); ok {
 		w.arr(x, at.Elem())
 	}
-	n, s := x.env.rootHeapName(t)
-	w.heaps[n] = s
+	for _, lf := range x.env.rootLeaves(t) {
+		w.heaps[lf.name] = lf.sort
+	}
 }
 
 func (w *writeSet) arr(x *exec, elem types.Type) {
@@ -484,7 +488,9 @@ func (x *exec) callWrites(w *writeSet, cc *ssa.CallCommon) {
 		return
 	}
 	w.heaps["next"] = smt.Int
-	w.heaps["allocated"] = BV64
+	if mayAllocate(c) {
+		w.heaps["allocated"] = BV64
+	}
 	for _, a := range c.C.Assigns {
 		x.assignHeaps(w, c, callee, a)
 	}
